@@ -190,6 +190,9 @@ POT_BODIES = [
     (["rgbp = RGBLed(9, 10, 11)"], ["rgbp.set_color(red=pot.read() // 4, green=pot.read() // 4, blue=1)", "mon.write(0)"]),
     (["ledp = Led(5)"], ["ledp.set_brightness(pot.read() // 4)", "ledp.set_brightness(pot.read() // 4)", "mon.write(0)"]),
     (["def avg(a, b):", "    return (a + b) // 2"], ["mon.write(avg(pot.read(), pot.read()))"]),
+    # the name is bound to a second potentiometer on another pin: reads after that go to the new pin
+    (["mon.write(pot.read())", 'pot = Potentiometer("A1")', "mon.write(pot.read())"], ["mon.write(pot.read())"]),
+    (["mon.write(pot.read())", 'pot = Potentiometer("A1")'], ["mon.write(pot.read() + 1)", "x = pot.read()", "mon.write(x)"]),
     (["def pick(a, b, c):", "    return a * 2 + b - c"], ["mon.write(pick(pot.read(), pot.read(), pot.read()))"]),
 ]
 
@@ -204,7 +207,7 @@ def gen_pot(tier: str) -> Iterator[dict]:
                     continue
                 decl, body = decl + entry[0], entry[1]
             src = common.script(decl, body, prologue=PRO) if where == "before" else common.script([], decl + body, prologue=PRO)
-            runs = [{"passes": 2, "ar": {"A0": list(seq) + [7, 8, 9]}} for seq in itertools.product(vals, repeat=3)]
+            runs = [{"passes": 2, "ar": {"A0": list(seq) + [7, 8, 9], "A1": [600 + v // 3 for v in seq] + [17, 18, 19]}} for seq in itertools.product(vals, repeat=3)]
             yield {"id": f"P:{bi}:{where}", "space": "P", "src": src, "runs": runs, "meta": {}}
 
 
